@@ -526,6 +526,18 @@ func main() {
 	}
 	h.w.close()
 
+	envChecked, envFails := 0, []string{}
+	if *prop == "C14" && *replay == "" {
+		n := 20000
+		if *tier == "thorough" {
+			n = 400000
+		}
+		envChecked, envFails = envelope(*seed, n)
+		if envFails == nil {
+			envFails = []string{}
+		}
+	}
+
 	cov := map[string]string{}
 	covOK := true
 	for tag, n := range g.total {
@@ -568,6 +580,8 @@ func main() {
 		"shards":                        h.w.idx + 1,
 		"skipped_outside_scalar_class":  h.w.skipped,
 		"traces_validated_against_impl": h.traces,
+		"envelope_checked":              envChecked,
+		"envelope_failures":             envFails,
 	}
 	j, _ := json.MarshalIndent(res, "", " ")
 	os.WriteFile(filepath.Join(*out, "result.json"), j, 0o644)
